@@ -74,13 +74,20 @@ func c08Schema(node int, asProp bool, rules []c08Rule, quoted int) []byte {
 	return append(out, '}')
 }
 
-func c08Check(text []byte) bool {
-	s := jschema.New("s", text)
-	t := jschema.New("t", `{"x": 1}`)
+func c08Verdict(text []byte, oo ...jschema.Option) bool {
+	s := jschema.New("s", text, oo...)
+	t := jschema.New("t", `{"x": 1}`, oo...)
 	if err := s.AddType("@t", t); err != nil {
 		return false
 	}
 	return s.Check() == nil
+}
+
+func c08Check(text []byte) bool {
+	ok := c08Verdict(text)
+	// whether a rule applies to a node is not a matter of the option that makes keys optional
+	v.Assert(c08Verdict(text, jschema.KeysAreOptionalByDefault()) == ok, "C08/verdict-depends-on-keys-option")
+	return ok
 }
 
 var perms3 = [][]int{{0, 1, 2}, {0, 2, 1}, {1, 0, 2}, {1, 2, 0}, {2, 0, 1}, {2, 1, 0}}
